@@ -20,12 +20,20 @@ import lark
 from lark import Token, Tree
 from lark.reconstruct import Reconstructor
 
-from dissect.cobaltstrike import c2profile as c2p
-from dissect.cobaltstrike.c2profile import C2Profile, c2profile_parser
-
 from gen import grammar as GG
 
 from . import common as C
+
+# A grammar that Lark refuses to load (LALR conflict, syntax error) makes `import c2profile` itself fail.  That is a
+# total failure of the code under test, not of this harness: it is turned into failing `rt` cases below instead of an
+# import error of the harness (which check.py would report as a machinery error).
+LOAD_ERROR = None
+try:
+    from dissect.cobaltstrike import c2profile as c2p
+    from dissect.cobaltstrike.c2profile import C2Profile, c2profile_parser
+except Exception as _e:  # noqa: BLE001
+    LOAD_ERROR = _e
+    c2p = C2Profile = c2profile_parser = None
 
 ID = "C10"
 DRIVER = "drv_c10"
@@ -58,24 +66,33 @@ RULE = ("every form of the generated table in a minimal context, every block emp
         "whitespace/comments; distinct = hash of input line; non-trivial = accepted sentence with at least one statement "
         "(rt), printable tree (tree), lexable text (lex), non-empty output (pp), rejected input (bad)")
 
-TAB = GG.load(c2profile_parser)
-KW = TAB.keywords
-NAMES = TAB.names
+# The table the Lean obligations are about.  When the translator cannot fold the loaded grammar (unknown construct)
+# there is nothing to generate sentences from: the run then consists of the broken proof obligation alone.
+try:
+    TAB = GG.load(c2profile_parser) if LOAD_ERROR is None else None
+except GG.GrammarError:
+    TAB = None
+KW = TAB.keywords if TAB else []
+NAMES = TAB.names if TAB else []
 KWID = {k: i for i, k in enumerate(KW)}
 NAMEID = {n: i for i, n in enumerate(NAMES)}
-STRING_T = NAMEID["STRING"]
-OPTION_T = NAMEID["OPTION"]
+STRING_T = NAMEID.get("STRING")
+OPTION_T = NAMEID.get("OPTION")
 FORMS_OF = {}
-for _f in TAB.forms:
-    FORMS_OF.setdefault(_f.origin, []).append(_f)
-# forms that contain a keyword the lexer can never produce (starts a comment)
-UNLEXABLE = {f.id for f in TAB.forms if any(k == "kw" and KW[a].startswith("#") for k, a in f.lean_items())}
-# where can a nonterminal occur: origin -> [(form, item index)]
+UNLEXABLE = set()
 PARENTS = {}
-for _f in TAB.forms:
-    for _i, (_k, _a) in enumerate(_f.lean_items()):
-        if _k in ("nt", "star", "opt"):
-            PARENTS.setdefault(_a, []).append((_f, _i))
+if TAB:
+    for _f in TAB.forms:
+        FORMS_OF.setdefault(_f.origin, []).append(_f)
+    # forms that contain a keyword the lexer can never produce (starts a comment)
+    UNLEXABLE = {f.id for f in TAB.forms if any(k == "kw" and KW[a].startswith("#") for k, a in f.lean_items())}
+    # where can a nonterminal occur: origin -> [(form, item index)]
+    for _f in TAB.forms:
+        for _i, (_k, _a) in enumerate(_f.lean_items()):
+            if _k in ("nt", "star", "opt"):
+                PARENTS.setdefault(_a, []).append((_f, _i))
+
+FALLBACK_SOURCES = ['set sleeptime "1";', 'stage { set userwx "false"; }', 'http-get { set uri "/a"; client { metadata { base64; header "Cookie"; } } }']
 
 
 # ------------------------------------------------------------------------------------------------------
@@ -263,6 +280,13 @@ def enc_items(items) -> str:
 def gen(tier, rng, shard, nshards):
     thorough = tier == "thorough"
     k = 0
+    if LOAD_ERROR is not None:
+        if shard == 0:
+            for src in FALLBACK_SOURCES:
+                yield "rt", "rt " + hx(src)
+        return
+    if TAB is None:
+        return
 
     def mine():
         nonlocal k
@@ -601,6 +625,8 @@ def _postproc_fn():
 
 
 def impl(stream, line):
+    if LOAD_ERROR is not None:
+        raise LOAD_ERROR
     w = line.split(" ")
     if stream == "rt":
         return run_rt(unhx(w[1]))[0]
@@ -731,7 +757,7 @@ def colliding_pairs():
 
 
 def extra_checks(tier, rng, lean):
-    if lean.get("ok", True):
+    if lean.get("ok", True) or TAB is None:
         return
     for f, g in colliding_pairs():
         for h in (f, g):
